@@ -380,8 +380,11 @@ pub fn finish(
     std::fs::write(&path, serde_json::to_string_pretty(&ev).unwrap()).expect("cannot write evidence");
     println!("log_digest={:016x} recheck={}/{} mismatches", log_digest, batch.recheck.1, batch.recheck.0);
     if batch.recheck.1 > 0 {
-        eprintln!("harness error: {} of {} re-executed runs produced a different event log (simulator is not deterministic)", batch.recheck.1, batch.recheck.0);
-        return 2;
+        eprintln!("harness warning: {} of {} re-executed runs produced a different event log", batch.recheck.1, batch.recheck.0);
+        if exit == 0 {
+            eprintln!("harness error: the simulator is not deterministic on a tree where the property held");
+            return 2;
+        }
     }
     println!(
         "{} tier={} seed={} runs={} distinct_nontrivial={} violations={} wall={:.1}s evidence={}",
